@@ -52,6 +52,7 @@ Template(n, now, ds) ==
     [] n = "B1"  -> Batch(A1, D, Half, 10, ts, e2, Sched2(e2 + 1), 1, Half)
     [] n = "B2"  -> Batch(A1, D, Half, 7, ts, e1, <<>>, 2, D)
     [] n = "B3"  -> Batch(A1, D, 1, 5, ts, e1, Sched3(e1 + 3), 3, 1)
+    [] n = "Bx"  -> Batch(A1, D, 1, 6, ts, e1, <<[t |-> e1 + 1, w |-> Half], [t |-> e1 + 2, w |-> D - Half]>>, 2, 1)
     [] n = "Bl"  -> Batch(A1, D, Half, 10, ts, e1, Sched3(e1 + 1), 1, 1)
     [] n = "BB"  -> [Batch(UserSeq[2], D, Half, 8, ts, e2, <<>>, 1, Half) EXCEPT !.sellDenom = "dB", !.payDenom = "dA"]
 
@@ -189,6 +190,7 @@ Users2 == <<"u1", "u2">>
 Users3 == <<"u1", "u2", "u3">>
 Users4 == <<"u1", "u2", "u3", "u4">>
 Users6 == <<"u1", "u2", "u3", "u4", "u5", "u6">>
+BagGenesis == BagDefault \cup W("Genesis", 4)
 BagBids == W("CreateFixed", 2) \cup W("CreateBatch", 3) \cup W("AddAllowed", 4) \cup W("UpdateAllowed", 1)
            \cup W("Bid", 16) \cup W("Modify", 3) \cup W("Block", 6) \cup W("Donate", 1)
 Rich == [dA |-> 40, dB |-> 40, dF |-> 10]
